@@ -9,6 +9,7 @@ import (
 	"seehuhn.de/go/sfnt"
 	"seehuhn.de/go/sfnt/cmap"
 	"seehuhn.de/go/sfnt/glyph"
+	"seehuhn.de/go/sfnt/mac"
 	"seehuhn.de/go/sfnt/verifharness/vlib"
 )
 
@@ -660,5 +661,114 @@ func genTable(run *vlib.Run, r *vlib.Rand, tier string) {
 	}
 	for i := 0; i < vlib.Count(tier, 20, 400); i++ {
 		emit(run, vlib.Line(vlib.Atom("install"), vlib.I64(int64(r.Intn(0x120000)))))
+	}
+}
+
+func init() { handlers["getsub"] = doGetSub }
+
+func macTable() vlib.List {
+	l := make(vlib.List, 256)
+	for i := range l {
+		l[i] = vlib.Int(int(mac.DecodeOne(byte(i))))
+	}
+	return l
+}
+
+// getsub P E RUNES BYTES : Table{Key{P,E,0}: BYTES}.Get(Key{P,E,0}); RUNES is
+// mac.DecodeOne for the 256 byte values (the model's code2rune for platform 1)
+func doGetSub(args []vlib.Sx) (res result, err error) {
+	if len(args) != 4 {
+		return res, fmt.Errorf("getsub: want 4 arguments")
+	}
+	p, e1 := vlib.AsInt(args[0])
+	e, e2 := vlib.AsInt(args[1])
+	b, e3 := vlib.AsBytes(args[3])
+	if e1 != nil || e2 != nil || e3 != nil {
+		return res, fmt.Errorf("getsub: bad arguments")
+	}
+	if vlib.Str(args[2]) != vlib.Str(macTable()) {
+		return res, fmt.Errorf("getsub: the rune table in the case is not mac.DecodeOne's")
+	}
+	key := cmap.Key{PlatformID: uint16(p), EncodingID: uint16(e)}
+	t := cmap.Table{key: b}
+	var sub cmap.Subtable
+	var gerr error
+	f, _, _, hdrOK := subHeader(b)
+	_ = f
+	reachable := len(b) >= 10 && hdrOK // what cmap.Decode can hand out
+	if pn, msg := guard(func() { sub, gerr = t.Get(key) }); pn {
+		res.impl = "panic"
+		if reachable {
+			res.fail = "Table.Get panicked on a subtable cmap.Decode can return: " + msg
+			res.sig = "c09-decode-panic"
+		} else {
+			res.labels = append(res.labels, "getsub:panic-on-input-Decode-never-returns")
+		}
+		return res, nil
+	}
+	res.nontrivial = reachable
+	if gerr != nil {
+		res.impl = "err"
+		res.labels = append(res.labels, "getsub:err")
+		return res, nil
+	}
+	switch s := sub.(type) {
+	case *cmap.Format0:
+		res.impl = vlib.Str(vlib.L(vlib.Atom("bytes"), vlib.Hex(s.Data[:])))
+	case cmap.Format4:
+		l := pairsOf4(s)
+		l[0] = vlib.Atom("map")
+		res.impl = vlib.Str(l)
+	case cmap.Format12:
+		l := pairsOf12(s)
+		l[0] = vlib.Atom("map")
+		res.impl = vlib.Str(l)
+	default:
+		res.impl = "unknown-type"
+	}
+	res.labels = append(res.labels, fmt.Sprintf("getsub:ok-platform%d", p))
+	return res, nil
+}
+
+func genGetSub(run *vlib.Run, r *vlib.Rand, tier string) {
+	tbl := macTable()
+	line := func(p, e int, b []byte) string {
+		return vlib.Line(vlib.Atom("getsub"), vlib.Int(p), vlib.Int(e), tbl, vlib.Hex(b))
+	}
+	n := vlib.Count(tier, 250, 6000)
+	for i := 0; i < n; i++ {
+		b := randomSubtable(r, uint16(r.Intn(3)))
+		if len(b) > 3000 {
+			continue
+		}
+		p, e := 1, 0
+		switch r.Intn(6) {
+		case 0:
+			p, e = 1, r.Range(1, 3) // unsupported Mac encoding
+		case 1:
+			p, e = 3, 1
+		case 2:
+			p, e = 0, 3
+		}
+		switch r.Intn(8) {
+		case 0:
+			b = mutate(r, b)
+		case 1:
+			b = b[:r.Intn(len(b)+1)]
+		}
+		emit(run, line(p, e, b), "getsub")
+	}
+	// format 4 / 6 with codes above 255 under the Mac mapping: byte(code)
+	// folds them onto 0..255 and later codes overwrite earlier ones
+	emit(run, line(1, 0, table6(0, 250, 12, []uint16{1, 2, 3, 4, 5, 6, 7, 8, 9, 10, 11, 12}, nil)), "getsub", "mac-fold")
+	emit(run, line(1, 0, table4(0, []segment4{{first: 0x41, last: 0x5A, delta: 10}, {first: 0x141, last: 0x15A, delta: 20}, {first: 0xFFFF, last: 0xFFFF, delta: 1}}, nil, nil)), "getsub", "mac-fold")
+	for _, f := range []uint16{1, 3, 5, 7, 9, 11, 15, 255, 256, 0xFFFF} {
+		b := make([]byte, 12)
+		copy(b, be16(f))
+		emit(run, line(3, 1, b), "getsub", "unknown-format")
+	}
+	for l := 0; l <= 12; l++ {
+		emit(run, line(3, 1, make([]byte, l)), "getsub", "short")
+		emit(run, line(1, 0, make([]byte, l)), "getsub", "short")
 	}
 }
